@@ -187,7 +187,7 @@ def run_impl(case: dict, warnings=None, sheet_names=None) -> dict:
         return {"class": "internal", "ok": False, "msg": "RecursionError"}
     except Exception as e:  # noqa: BLE001
         return {"class": "internal", "ok": False, "msg": f"{type(e).__name__}: {e}"}
-    return {"class": "ok", "ok": True, "xform": res.xform, "warnings": list(res.warnings)}
+    return {"class": "ok", "ok": True, "xform": res.xform, "warnings": list(res.warnings), "_survey": res._survey}
 
 
 XF = "{http://www.w3.org/2002/xforms}"
@@ -267,7 +267,7 @@ def workbook_case(ctx, case: dict, tag: str, advisory: bool = False, must_conver
         ctx.mismatch("model predicts an error, implementation converts", case, r["warnings"], m)
         ctx.record({"wb": case}, True)
         return r
-    ia = ctx.driver.call("warn.iana", langs=langs, tags=relevant_tags(langs))
+    ia = iana_from_model(ctx, case, r, langs)
     model_obs = m["model"] + ia["model"]
     spec_obs = m["spec"] + ia["spec"]
     for o in impl_obs:
@@ -299,6 +299,32 @@ def workbook_case(ctx, case: dict, tag: str, advisory: bool = False, must_conver
         advisory_case(ctx, case, r)
     ctx.record({"wb": case}, True)
     return r
+
+
+def iana_from_model(ctx, case, r, xform_langs):
+    """The IANA warning computed on the language set of the *model* (C07's itext model run on the built survey,
+    `warn.iana_survey`); outside that model's fragment the languages are read from the implementation's XForm."""
+    import itext_common as ic
+
+    cand = set(xform_langs)
+    for s_ in ("survey", "choices"):
+        for c in cols_of(case, s_):
+            cand.update(p.strip() for p in c.split("::")[1:])
+    for row in case.get("settings") or []:
+        cand.update(str(v) for v in row.values())
+    tags = relevant_tags(sorted(cand))
+    try:
+        x = ic.extract(r["_survey"])
+        v = ctx.driver.call("warn.iana_survey", survey=x, tags=tags)
+    except ic.Unsupported:
+        v = {"outcome": "unsupported"}
+    if v["outcome"] == "ok":
+        ctx.count("iana:languages_from_itext_model")
+        if v["langs"] != xform_langs:
+            ctx.count("iana:model_languages_differ_from_xform")
+        return v
+    ctx.count("iana:languages_from_xform")
+    return ctx.driver.call("warn.iana", langs=xform_langs, tags=relevant_tags(xform_langs))
 
 
 def advisory_case(ctx, case, r):
